@@ -1,7 +1,7 @@
 #!/bin/bash
 # usage: tools/try_seed.sh <seed-name> <Cxx> [tier] : apply the seeded patch to /repo, run the check, undo
 N=$1; P=$2; T=${3:-quick}
-cd /repo && git apply /verif/seeded/$N/patch.diff || { echo "PATCH FAILED"; exit 3; }
+cd /repo && git apply $(ls /verif/seeded/$N/patch_rebased*.diff 2>/dev/null || echo /verif/seeded/$N/patch.diff) || { echo "PATCH FAILED"; exit 3; }
 cd /verif && ./check $P --tier $T 2>&1 | grep -E "VIOLATION|KNOWN|HARNESS|tier=" | cut -c1-300 | head -8
 echo "exit=${PIPESTATUS[0]}"
 git -C /repo checkout -- . ; git -C /repo status --short | head -3
